@@ -42,6 +42,21 @@ theorem compat_iff (s l t : Int) : Gen.temporallyCompatible (some (s, l)) t = tr
   unfold Spec.temporallyCompatibleCond inWin
   simp; omega
 
+/-- **LogList.Compatible draws the same window.** The second entry point of the log-list filter (used by the submission proxy
+when root checks are on) keeps a log only if `TemporallyCompatible` does — with or without a root, whatever the root verdict — and
+keeps exactly those when the root is acceptable or no root is given: `start ≤ t < limit`, as everywhere else. -/
+theorem compatible_window (s l t : Int) (rootGiven rootOk : Bool) :
+    (Gen.compatibleKeeps (some (s, l)) t rootGiven rootOk = true → inWin (some s) (some l) t) ∧
+    ((rootGiven = false ∨ rootOk = true) → (Gen.compatibleKeeps (some (s, l)) t rootGiven rootOk = true ↔ inWin (some s) (some l) t)) := by
+  unfold Gen.compatibleKeeps
+  have h := compat_iff s l t
+  constructor
+  · intro hk
+    simp only [Bool.and_eq_true] at hk
+    exact h.mp hk.1
+  · intro hr
+    rcases hr with hr | hr <;> simp [hr, h]
+
 theorem compat_no_interval (t : Int) : Gen.temporallyCompatible none t = true := by
   unfold Gen.temporallyCompatible
   rw [Gen.temporallyCompatibleKeeps_eq_spec]
